@@ -28,9 +28,18 @@ def build_resume_campaign(tier, sd):
     rc = families.RandomCharts(sd * 4099 + 1)
     for i in range(120 if tier == "quick" else 1500):
         charts.append(rc.chart())
+    # history recorded before the snapshot (several levels deep, non-default children) and restored after it
+    hwords = families.words_H(5)
+    for desc in families.enum_H():
+        c = families.build_H(desc)
+        c.hwords = [["next", "out", "back"], ["next", "next", "out", "back"], ["next", "out", "back", "next", "out"]] + \
+                   rnd.sample(hwords, 10 if tier == "quick" else 60)
+        charts.append(c)
     for c in charts:
         cid = cp.add_chart(c)
-        if "R" in c.tags:
+        if "H" in c.tags:
+            ws = c.hwords
+        elif "R" in c.tags:
             ws = [rc.word(c, 5) for _ in range(2)]
         else:
             ws = families.words(c, 2)
